@@ -37,8 +37,10 @@ CONSTANTS W,            \* scaled word size (2^32 ms = W time units)
           Maxes, Rates, Periods,    \* configurations: max tokens, k = refill per time unit, period
           Dts, Chunks,  \* time steps and byte counts
           MaxSteps
-VARIABLES now, has, b, sleepUntil, pending, t0, readSince, lastChunk, panicked, hist
-vars == <<now, has, b, sleepUntil, pending, t0, readSince, lastChunk, panicked, hist>>
+VARIABLES now, has, b, sleepUntil, pending, t0, readSince, lastChunk, panicked,
+          limited,      \* RateLimited::limited_tx: how often a read has been rate-limited (never reset)
+          hist
+vars == <<now, has, b, sleepUntil, pending, t0, readSince, lastChunk, panicked, limited, hist>>
 
 Min(x, y) == IF x < y THEN x ELSE y
 T(x) == IF Trunc32 THEN x % W ELSE x                 \* `as u32`
@@ -64,22 +66,23 @@ Consumed(bk, n, t) == LET u == Updated(bk, t)
                       IN [bucket |-> [u EXCEPT !.fill = f],
                           deadline |-> IF f > 0 THEN 0 ELSE u.lastFill + (((0 - f) \div u.refill) + 1) * u.period]
 
-Log(op, arg, res, val) == hist' = Append(hist, [op |-> op, arg |-> arg, res |-> res, val |-> val, now |-> now'])
+Log(op, arg, res, val) == hist' = Append(hist, [op |-> op, arg |-> arg, res |-> res, val |-> val, now |-> now', lim |-> limited'])
 Bound == Len(hist) < MaxSteps /\ ~panicked
 
 Init == /\ now = 0 /\ sleepUntil = 0 /\ pending = NoChange /\ t0 = 0 /\ readSince = 0 /\ lastChunk = 0
-        /\ panicked = FALSE
+        /\ panicked = FALSE /\ limited = 0
         /\ \E c \in Configs : /\ Valid(c) /\ has = TRUE /\ b = NewBucket(c, 0)
-                              /\ hist = <<[op |-> "new", arg |-> c.max, res |-> "ok", val |-> c.rate, now |-> c.period]>>
+                              /\ hist = <<[op |-> "new", arg |-> c.max, res |-> "ok", val |-> c.rate, now |-> c.period, lim |-> 0]>>
 
-Advance(dt) == /\ Bound /\ now' = now + dt /\ Log("advance", dt, "", 0)
-               /\ UNCHANGED <<has, b, sleepUntil, pending, t0, readSince, lastChunk, panicked>>
+Advance(dt) == /\ Bound /\ now' = now + dt
+               /\ UNCHANGED <<has, b, sleepUntil, pending, t0, readSince, lastChunk, panicked, limited>>
+               /\ Log("advance", dt, "", 0)
 
 \* a division by a truncated-to-zero period would be a panic; `new` excludes it (checked as NoPanic)
 DivisorOk(bk) == T(bk.period) # 0
 
 Consume(n) == /\ Bound /\ has /\ now >= sleepUntil
-              /\ UNCHANGED <<now, has, pending, t0>>
+              /\ UNCHANGED <<now, has, pending, t0, limited>>
               /\ IF ~DivisorOk(b)
                    THEN panicked' = TRUE /\ UNCHANGED <<b, sleepUntil, readSince, lastChunk>> /\ Log("consume", n, "panic", 0)
                    ELSE LET r == Consumed(b, n, now) IN
@@ -88,7 +91,7 @@ Consume(n) == /\ Bound /\ has /\ now >= sleepUntil
                         /\ Log("consume", n, IF r.deadline = 0 THEN "ok" ELSE "err", r.deadline)
 
 SetLimit(c) == /\ Bound /\ pending' = c
-               /\ UNCHANGED <<now, has, b, sleepUntil, t0, readSince, lastChunk, panicked>>
+               /\ UNCHANGED <<now, has, b, sleepUntil, t0, readSince, lastChunk, panicked, limited>>
                /\ Log("set", c.max, c.kind, c.rate)
 
 \* the state after poll_read's first block (live limit change)
@@ -101,16 +104,17 @@ Poll(n) == /\ Bound /\ UNCHANGED now
            /\ LET a == AfterChange IN
               /\ pending' = NoChange /\ has' = a.has /\ t0' = a.t0 /\ panicked' = FALSE
               /\ IF ~a.has THEN                                   \* unlimited: straight to the inner reader
-                    /\ b' = a.b /\ sleepUntil' = 0 /\ readSince' = a.read /\ lastChunk' = lastChunk
+                    /\ b' = a.b /\ sleepUntil' = 0 /\ readSince' = a.read /\ lastChunk' = lastChunk /\ limited' = limited
                     /\ Log("poll", n, IF n = 0 THEN "pending" ELSE "ready", n)
                  ELSE IF a.sleep # 0 /\ now < a.sleep THEN        \* still waiting for the refill
-                    /\ b' = a.b /\ sleepUntil' = a.sleep /\ readSince' = a.read /\ lastChunk' = lastChunk
+                    /\ b' = a.b /\ sleepUntil' = a.sleep /\ readSince' = a.read /\ lastChunk' = lastChunk /\ limited' = limited
                     /\ Log("poll", n, "pending", 0)
                  ELSE IF n = 0 THEN                               \* inner reader has nothing: Pending, wait cleared
-                    /\ b' = a.b /\ sleepUntil' = 0 /\ readSince' = a.read /\ lastChunk' = lastChunk
+                    /\ b' = a.b /\ sleepUntil' = 0 /\ readSince' = a.read /\ lastChunk' = lastChunk /\ limited' = limited
                     /\ Log("poll", n, "pending", 0)
                  ELSE LET r == Consumed(a.b, n, now) IN
                     /\ b' = r.bucket /\ sleepUntil' = r.deadline /\ readSince' = a.read + n /\ lastChunk' = n
+                    /\ limited' = (IF r.deadline = 0 THEN limited ELSE limited + 1)          \* record_rate_limited
                     /\ Log("poll", n, "ready", n)
 
 \* two next-state relations (one per layer) so that TLC's per-action coverage lists only the layer's actions
@@ -136,6 +140,8 @@ DeadlineExact == (has /\ sleepUntil # 0 /\ sleepUntil > now) =>
 NoStall == (has /\ sleepUntil # 0) => sleepUntil <= now + (b.max + MaxChunk + 1) * b.period
 \* throttled exactly when the bucket is exhausted
 ThrottledIffEmpty == has => ((sleepUntil # 0) => b.fill <= 0)
+\* the throttle counter counts exactly the reads that started a refill wait
+LimitedCountsWaits == [][limited' # limited => (limited' = limited + 1 /\ sleepUntil' # 0)]_vars
 \* (c) nothing undefined
 NoPanic == ~panicked
 \* the bucket never holds more than its maximum and refill epochs never run ahead of the clock
